@@ -166,6 +166,11 @@ def plan(spec, model):
     nicks = [n for n in spec.nicks if model.get(f'reg_{n}', True)]
     chans = [c for c in spec.chans if model.get(f'exists_{c}')]
     need_helper = bool(chans)
+    if model.get('hist_oldnick'):
+        # WHOWAS history of 'oldnick': the helper used that nick before
+        need_helper = True
+        for _ in range(getattr(spec, 'history_len', 2)):
+            steps.append((HELPER, 'NICK oldnick')); steps.append((HELPER, 'NICK ' + HELPER))
     for n in nicks:
         if model.get(f'umode_local_oper_{n}') and not (spec.default_user_modes or {}).get('local_oper'):
             raise Unreachable(f'{n} +O without default_user_modes.local_oper')
@@ -313,6 +318,9 @@ DEFAULT_PROBES = True
 def probes_for(spec, model, actor):
     ps = []
     nicks = [n for n in spec.nicks if model.get(f'reg_{n}', True)]
+    others = [n for n in nicks if n != actor]
+    if others and actor in nicks:
+        ps.append((actor, f'NOTICE {others[0]} :probe'))      # shows the prefix the actor speaks under
     for n in nicks:
         for c in spec.chans:
             ps.append((n, f'NAMES {c}'))
